@@ -74,17 +74,17 @@ pub fn examples(th: bool) -> Vec<Example> {
     // ---------------------------------------------------------------- knapsack
     {
         let scopes: Vec<(usize, u64)> = if th { vec![(1, 3), (2, 3), (3, 3), (4, 2)] } else { vec![(1, 3), (2, 3), (3, 2)] };
-        let sizes: Vec<u64> = scopes.iter().map(|(n, a)| 7 * ((a + 1) * a).pow(*n as u32)).collect();
+        let sizes: Vec<u64> = scopes.iter().map(|(n, a)| 7 * ((a + 1) * (a + 1)).pow(*n as u32)).collect();
         let count = sizes.iter().sum();
         let sc = scopes.clone();
-        ex.push(Example { name: "knapsack", scope: format!("(items, a) in {:?}: weights 1..a, profits 0..a (worthless items included), capacity 0..=6, all combinations", scopes), count, file_flag: None, tsptw_output: false, extra: vec![],
+        ex.push(Example { name: "knapsack", scope: format!("(items, a) in {:?}: weights 0..a, profits 0..a (worthless and weightless items included), capacity 0..=6, all combinations", scopes), count, file_flag: None, tsptw_output: false, extra: vec![],
             arg_sets: argsets(&w4, &[None], "-w", "-t"),
             gen: Box::new(move |mut idx| {
                 let mut k = 0;
                 while idx >= sizes[k] { idx -= sizes[k]; k += 1; }
                 let (n, a) = sc[k];
                 let cap = digit(&mut idx, 7) as usize;
-                let items: Vec<(usize, usize)> = (0..n).map(|_| { let p = digit(&mut idx, a + 1) as usize; let w = digit(&mut idx, a) as usize + 1; (p, w) }).collect();
+                let items: Vec<(usize, usize)> = (0..n).map(|_| { let p = digit(&mut idx, a + 1) as usize; let w = digit(&mut idx, a + 1) as usize; (p, w) }).collect();
                 let mut best = 0;
                 for m in 0..(1u32 << n) { let w: usize = (0..n).filter(|i| m & (1 << i) != 0).map(|i| items[i].1).sum(); if w <= cap { let p: usize = (0..n).filter(|i| m & (1 << i) != 0).map(|i| items[i].0).sum(); best = best.max(p); } }
                 let text = format!("{} {}\n{}", n, cap, items.iter().map(|(p, w)| format!("{} {}\n", p, w)).collect::<String>());
@@ -444,22 +444,30 @@ pub fn examples(th: bool) -> Vec<Example> {
     }
     // ---------------------------------------------------------------- alp
     {
-        // na aircraft, ncl classes, nr runways; targets sorted from {1,2,4}; latest = target + {0,1,3} (kept ordered inside a class); separations in {1,2}
-        let scopes: Vec<(usize, usize, usize)> = if th { vec![(1, 1, 1), (2, 1, 1), (2, 2, 1), (2, 2, 2), (3, 1, 1), (3, 2, 1), (3, 2, 2)] } else { vec![(1, 1, 1), (2, 1, 1), (2, 2, 1), (2, 2, 2), (3, 1, 2)] };
-        let msets = |na: usize| -> Vec<Vec<i64>> { let g = [1i64, 2, 4]; let mut out = vec![]; let mut cur = vec![0usize; na]; loop { if cur.windows(2).all(|w| w[0] <= w[1]) { out.push(cur.iter().map(|i| g[*i]).collect()); } let mut p = 0; loop { if p == na { return out; } cur[p] += 1; if cur[p] < 3 { break; } cur[p] = 0; p += 1; } } };
-        let info: Vec<(usize, usize, usize, Vec<Vec<i64>>)> = scopes.iter().map(|(a, c, r)| (*a, *c, *r, msets(*a))).collect();
-        let sizes: Vec<u64> = info.iter().map(|(na, ncl, _, ms)| (*ncl as u64).pow(*na as u32) * ms.len() as u64 * 3u64.pow(*na as u32) * (1u64 << (ncl * ncl))).collect();
+        // na aircraft, ncl classes, nr runways; targets sorted from an alphabet; latest = target + offset (kept ordered inside a class); separations in {1,2}
+        // (every 2x2 .. matrix over {1,2} satisfies the triangle inequality).  The (3,2,2) scope is what it takes for a runway which was
+        // freed LATER to be the only one which can still take an aircraft (two runways freed at the same time by aircraft of different
+        // classes, class dependent separations) -- seeded change C16b; the quick tier runs it over the reduced alphabets {1,2} / {0,1}.
+        let full_t = vec![1i64, 2, 4]; let full_o = vec![0i64, 1, 3];
+        let scopes: Vec<(usize, usize, usize, Vec<i64>, Vec<i64>)> = if th {
+            vec![(1, 1, 1, full_t.clone(), full_o.clone()), (2, 1, 1, full_t.clone(), full_o.clone()), (2, 2, 1, full_t.clone(), full_o.clone()), (2, 2, 2, full_t.clone(), full_o.clone()), (3, 1, 1, full_t.clone(), full_o.clone()), (3, 1, 2, full_t.clone(), full_o.clone()), (3, 2, 1, full_t.clone(), full_o.clone()), (3, 2, 2, full_t.clone(), full_o.clone()), (4, 2, 2, vec![1, 2], vec![0, 1])]
+        } else {
+            vec![(1, 1, 1, full_t.clone(), full_o.clone()), (2, 1, 1, full_t.clone(), full_o.clone()), (2, 2, 2, full_t.clone(), full_o.clone()), (3, 1, 2, full_t.clone(), full_o.clone()), (3, 2, 2, vec![1, 2], vec![0, 1])]
+        };
+        let msets = |na: usize, g: &[i64]| -> Vec<Vec<i64>> { let b = g.len(); let mut out = vec![]; let mut cur = vec![0usize; na]; loop { if cur.windows(2).all(|w| w[0] <= w[1]) { out.push(cur.iter().map(|i| g[*i]).collect()); } let mut p = 0; loop { if p == na { return out; } cur[p] += 1; if cur[p] < b { break; } cur[p] = 0; p += 1; } } };
+        let info: Vec<(usize, usize, usize, Vec<Vec<i64>>, Vec<i64>)> = scopes.iter().map(|(a, c, r, g, o)| (*a, *c, *r, msets(*a, g), o.clone())).collect();
+        let sizes: Vec<u64> = info.iter().map(|(na, ncl, _, ms, o)| (*ncl as u64).pow(*na as u32) * ms.len() as u64 * (o.len() as u64).pow(*na as u32) * (1u64 << (ncl * ncl))).collect();
         let count = sizes.iter().sum();
-        ex.push(Example { name: "alp", scope: format!("(aircraft, classes, runways) in {:?}: all class assignments, sorted targets from {{1,2,4}}, latest = target + {{0,1,3}} (ordered inside a class), separations in {{1,2}}", scopes), count, file_flag: None, tsptw_output: false, extra: vec![],
+        ex.push(Example { name: "alp", scope: format!("(aircraft, classes, runways, target alphabet, latest-offset alphabet) in {:?}: all class assignments, sorted targets, latest = target + offset (ordered inside a class), separations in {{1,2}}", scopes), count, file_flag: None, tsptw_output: false, extra: vec![],
             arg_sets: argsets(&w4, tt, "-w", "-t"),
             gen: Box::new(move |mut idx| {
                 let mut k = 0;
                 while idx >= sizes[k] { idx -= sizes[k]; k += 1; }
-                let (na, ncl, nr, ms) = &info[k];
+                let (na, ncl, nr, ms, offs) = &info[k];
                 let (na, ncl, nr) = (*na, *ncl, *nr);
                 let classes: Vec<usize> = (0..na).map(|_| digit(&mut idx, ncl as u64) as usize).collect();
                 let targets = ms[digit(&mut idx, ms.len() as u64) as usize].clone();
-                let mut latest: Vec<i64> = (0..na).map(|a| targets[a] + [0, 1, 3][digit(&mut idx, 3) as usize]).collect();
+                let mut latest: Vec<i64> = (0..na).map(|a| targets[a] + offs[digit(&mut idx, offs.len() as u64) as usize]).collect();
                 // keep the latest times ordered like the targets inside each class (the model lands a class in index order)
                 for c in 0..ncl { let ids: Vec<usize> = (0..na).filter(|a| classes[*a] == c).collect(); for w in 1..ids.len() { if latest[ids[w]] < latest[ids[w - 1]] { latest[ids[w]] = latest[ids[w - 1]]; } } }
                 let sep: Vec<Vec<i64>> = (0..ncl).map(|_| (0..ncl).map(|_| digit(&mut idx, 2) as i64 + 1).collect()).collect();
